@@ -855,6 +855,8 @@ class EvalMixin(InterpBase):
                 return self.registry[use[k]]
             if k in self.registry and not getattr(self.registry[k], "proof_only", False):
                 return self.registry[k]
+        if use and info.key in use:
+            return None if use[info.key] == "inline" else self.registry[use[info.key]]
         c = self.registry.get(info.key)
         if c is not None and getattr(c, "proof_only", False):
             return None
